@@ -168,6 +168,11 @@ def cases(tier, seed):
                             ign = wire.packet(bytes([wire.MSG_IGNORE]) + wire.string('x' * 11))
                             cs.append({'T': T, 'op': 'prefix', 'conn': conn, 'at': label, 'hex': (dbg * k).hex(), 'what': 'debug'})
                             cs.append({'T': T, 'op': 'prefix', 'conn': conn, 'at': label, 'hex': (ign * k).hex(), 'what': 'ignore'})
+                        if label == 'kexinit' and conn == 0:
+                            # a well-framed packet of ANY other type in front of a valid KEXINIT: only IGNORE (2) and DEBUG (4) may be skipped there
+                            for t in (range(256) if tier == 'thorough' else (0, 1, 3, 5, 6, 7, 19, 21, 30, 53, 80, 255)):
+                                if t not in (wire.MSG_IGNORE, wire.MSG_DEBUG, wire.MSG_KEXINIT):
+                                    cs.append({'T': T, 'op': 'prefix', 'conn': conn, 'at': label, 'hex': wire.packet(bytes([t]) + wire.u32(0) + wire.string('')).hex(), 'what': 'other-type-%d' % t})
                 # random mutations
                 for i in range(3 if tier == 'quick' else 40):
                     nbytes = rng.choice([1, 1, 2, 4])
@@ -186,6 +191,8 @@ def cases(tier, seed):
                 if label == 'banner' and conn == 0:
                     eol = b'\r\n'
                     for what, raw in (('huge-minor-version', b'SSH-2.' + b'1' * 5000 + b'-OpenSSH_9.3' + eol), ('huge-software', b'SSH-2.0-' + b'A' * 9000 + eol), ('long-line-no-newline', b'X' * 9000),
+                                      ('huge-openssh-version', b'SSH-2.0-OpenSSH_' + b'9' * 5000 + eol), ('huge-openssh-minor', b'SSH-2.0-OpenSSH_8.' + b'9' * 4400 + b'p1' + eol), ('huge-dropbear-version', b'SSH-2.0-dropbear_2020.' + b'1' * 4400 + eol),
+                                      ('huge-libssh-version', b'SSH-2.0-libssh_0.' + b'7' * 4400 + b'.1' + eol), ('zero-padded-version', b'SSH-2.0-OpenSSH_' + b'0' * 4400 + b'8.9' + eol),
                                       ('many-header-lines', b''.join(b'line %d\r\n' % i for i in range(400)) + data), ('nul-bytes', b'\x00' * 64 + data), ('only-newlines', b'\n' * 3000 + data)):
                         cs.append({'T': T, 'op': 'crafted', 'conn': conn, 'at': label, 'what': 'banner:' + what, 'hex': raw.hex()})
                 if label == 'pkm':
